@@ -9,7 +9,20 @@ mod scenarios;
 fn main() {
     let name = std::env::args().nth(1).unwrap_or_default();
     panic::set_hook(Box::new(|_| {}));
-    let r = panic::catch_unwind(|| scenarios::run(&name));
+    // watchdog: a scenario that does not finish within 60 s is reported as a hang
+    let (tx, rx) = std::sync::mpsc::channel();
+    let n2 = name.clone();
+    std::thread::spawn(move || {
+        let r = panic::catch_unwind(|| scenarios::run(&n2));
+        let _ = tx.send(r);
+    });
+    let r = match rx.recv_timeout(std::time::Duration::from_secs(60)) {
+        Ok(r) => r,
+        Err(_) => {
+            println!("VIOLATED {name}: HANG (no result after 60 s)");
+            std::process::exit(1)
+        }
+    };
     match r {
         Ok(Some(Ok(msg))) => {
             println!("HOLDS {name}: {msg}");
